@@ -242,6 +242,9 @@ func (e *Engine) isRecursiveSpec(fn *ssa.Function) bool {
 	if !strings.HasPrefix(fn.Name(), "spec_") {
 		return false
 	}
+	if strings.HasPrefix(fn.Name(), "spec_opq_") {
+		return true
+	}
 	if r, ok := e.specUF[fn.Name()]; ok {
 		return r
 	}
@@ -284,7 +287,8 @@ func (e *Engine) applySpecUF(fr *Frame, st *State, fn *ssa.Function, args []Valu
 	app := UF(name, rs, ts...)
 	key := fmt.Sprintf("%s|%d", name, app.id)
 	depth := e.unfolding[fn]
-	if depth < e.unfoldFuel && !e.axiomSeen[key] {
+	opaque := strings.HasPrefix(fn.Name(), "spec_opq_") && !e.reveal
+	if depth < e.unfoldFuel && !e.axiomSeen[key] && !opaque {
 		e.axiomSeen[key] = true
 		e.unfolding[fn] = depth + 1
 		nf := e.newFrame(fn, fr)
